@@ -35,8 +35,8 @@ def bounds(tier):
     return ('quick: II, OO, fs x 4 kinds x 2 implementations, N=4 @2/2: all 1-deviation schedules with the '
             'full mutation alphabet, all 2-deviation schedules with the reduced alphabet on 4 iterator '
             'forms; thinned deep trees (8 keys built ascending @2/2, every deletion subset): all '
-            '1-deviation schedules with the reduced alphabet on 4 forms; thorough: N=5, 3 deviations on '
-            'iter() and items(), thinned trees of 10 keys asc/desc')
+            '1-deviation schedules with the reduced alphabet on 4 forms; thorough: six families; C: 3 deviations '
+            'on N=4, 2 on N=5; Python: 2 on N=4, 1 on N=5; thinned trees of 10 (C) / 9 (Py) keys asc and desc')
 
 
 def required_guards(tier):
@@ -46,19 +46,31 @@ def required_guards(tier):
 
 
 def configs(tier):
+    """(fam, kind, impl, sizes, n, D, thin, weight)"""
     out = []
     for fam in ('II', 'OO', 'fs') if tier == 'quick' else ('II', 'OO', 'fs', 'LF', 'QQ', 'UO'):
         for impl in F.IMPLS:
+            c = impl == 'c'
             for kind in F.KINDS:
                 tree = kind in F.TREE_KINDS
-                n = 4 if tier == 'quick' else 5
-                out.append((fam, kind, impl, (2, 2) if tree else None, n, 2 if tier == 'quick' else 3,
-                            None, (30 if tree else 3) * (8 if impl == 'py' else 1)))
-                if tree and (fam != 'fs' or tier != 'quick'):
-                    # thinned deep trees (3+ interior levels): one deviation, reduced alphabet
-                    nn = (8 if impl == 'c' else 7) if tier == 'quick' else (10 if impl == 'c' else 9)
-                    for order in (('asc',) if tier == 'quick' else ('asc', 'desc')):
-                        out.append((fam, kind, impl, (2, 2), nn, 1, order, 60))
+                sz = (2, 2) if tree else None
+                if tier == 'quick':
+                    out.append((fam, kind, impl, sz, 4, 2, None, (30 if tree else 3) * (1 if c else 8)))
+                    if tree and fam != 'fs':
+                        # thinned deep trees (3+ interior levels): one deviation, reduced alphabet
+                        out.append((fam, kind, impl, (2, 2), 8 if c else 7, 1, 'asc', 60))
+                    continue
+                # thorough: the third deviation on the small space, two on the larger one (C);
+                # pure Python one size smaller
+                if c:
+                    out.append((fam, kind, impl, sz, 4, 3, None, 200 if tree else 20))
+                    out.append((fam, kind, impl, sz, 5, 2, None, 150 if tree else 10))
+                else:
+                    out.append((fam, kind, impl, sz, 4, 2, None, 150 if tree else 10))
+                    out.append((fam, kind, impl, sz, 5, 1, None, 150 if tree else 10))
+                if tree:
+                    for order in ('asc', 'desc'):
+                        out.append((fam, kind, impl, (2, 2), 10 if c else 9, 1, order, 250))
     return out
 
 
